@@ -741,13 +741,13 @@ func c07Scenario(c *evid.Ctx, seed int64, kills []string, nops int, only ...stri
 			// errors are expected in this lifetime (a failing Open ends it: exit 6)
 			nf := 0
 			for _, e := range res.Events {
-				if (e.Name == "fsync" || e.Name == "fdatasync") && e.Failed {
+				if (e.Name == "fsync" || e.Name == "fdatasync" || e.Name == "pwrite64" || e.Name == "fallocate") && e.Failed {
 					nf++
 				}
 			}
-			c.Count("injected_fsync_failures", int64(nf))
+			c.Count("injected_syscall_failures", int64(nf))
 			if nf > 0 {
-				c.Distinct("rule_paths", "R1R2|commit-after-a-failed-fsync")
+				c.Distinct("rule_paths", "R1R2|commit-after-a-failed-"+strings.SplitN(inject, ":", 2)[0])
 			}
 		} else if kill == "pinned" {
 			if err != nil {
@@ -795,7 +795,7 @@ func c07Scenario(c *evid.Ctx, seed int64, kills []string, nops int, only ...stri
 }
 
 func runC07(c *evid.Ctx) {
-	c.Rule("child processes run the production fs + BoltDB stack (only a marker-writing wrapper around the VFS) under strace -f -y; the parsed syscall trace, with the markers delimiting API and VFS calls, is checked by rules R1 (no append acknowledged with an un-fsynced pwrite64 to a segment file), R2 (directory fsynced between a segment file's creation and the first acknowledged commit into it, tracked across process lifetimes incl. killed ones), R3 (Delete = unlink then directory fsync before returning), R4 (O_CREAT|O_EXCL, fallocate/ftruncate to the requested size, zero-filled), R5 (wal-meta.db only appears by rename from .tmp after its writes were synced, directory fsynced before Open returns), R6 (every fs hook event used to calibrate the simulated disk is backed by the syscall and vice versa), R7 (no acknowledgement with un-synced writes to wal-meta.db); workloads of appends with rotation, head/tail/all truncations, base-index resets, stable sets and reopens, with self-kills before chosen VFS calls, right after a Create, and inside the metadata DB's initialisation; evaluations = acknowledged operations checked against the trace; non-trivial = distinct (rule, code path) pairs exercised",
+	c.Rule("child processes run the production fs + BoltDB stack (only a marker-writing wrapper around the VFS) under strace -f -y; the parsed syscall trace, with the markers delimiting API and VFS calls, is checked by rules R1 (no append acknowledged with an un-fsynced pwrite64 to a segment file), R2 (directory fsynced between a segment file's creation and the first acknowledged commit into it, tracked across process lifetimes incl. killed ones), R3 (Delete = unlink then directory fsync before returning), R4 (O_CREAT|O_EXCL, fallocate/ftruncate to the requested size, zero-filled), R5 (wal-meta.db only appears by rename from .tmp after its writes were synced, directory fsynced before Open returns), R6 (every fs hook event used to calibrate the simulated disk is backed by the syscall and vice versa), R7 (no acknowledgement with un-synced writes to wal-meta.db); workloads of appends with rotation, head/tail/all truncations, base-index resets, stable sets and reopens, with strace-injected failures of fsync / pwrite64 / fallocate / fdatasync (later acknowledged operations must still satisfy R1 and R2; only successful fsyncs count), with a Delete's directory fsync held while a rotation creates the next file, with self-kills before chosen VFS calls, right after a Create, and inside the metadata DB's initialisation; evaluations = acknowledged operations checked against the trace; non-trivial = distinct (rule, code path) pairs exercised",
 		"acked_operations_checked", "rule_paths")
 	c.Assume("the kernel honours fsync; strace -f -y output is complete for the traced calls (unparsed relevant lines make the run inconclusive)")
 	if _, err := exec.LookPath("strace"); err != nil {
@@ -835,6 +835,11 @@ func runC07(c *evid.Ctx) {
 		{[]string{"inject:fsync:error=EIO:when=3+4", "inject:fsync:error=EIO:when=1+5"}, 25, ":R1:|:R2:"},
 		{[]string{"inject:fsync:error=ENOSPC:when=5+2"}, 30, ":R1:|:R2:"},
 		{[]string{"inject:fsync:error=ENOSPC:when=4+2", "inject:fsync:error=EIO:when=3+2"}, 25, ":R1:|:R2:"},
+		// other kernel calls failing: writes, preallocation, the metadata DB's fdatasync
+		{[]string{"inject:pwrite64:error=EIO:when=3+4"}, 30, ":R1:|:R2:"},
+		{[]string{"inject:pwrite64:error=ENOSPC:when=2+5", "inject:pwrite64:error=EIO:when=4+3"}, 25, ":R1:|:R2:"},
+		{[]string{"inject:fallocate:error=ENOSPC:when=1+2"}, 30, ":R1:|:R2:"},
+		{[]string{"inject:fdatasync:error=EIO:when=2+3"}, 30, ":R1:|:R2:"},
 	}
 	if !quick(c) {
 		for i := 0; i < 70; i++ {
